@@ -74,6 +74,12 @@ def profile_store(ctx):
             st.exec(["--json", "--agent", "ag", "set", kids[2]], json.dumps({"state": s}).encode())
         if s is None:
             st.exec(["--json", "set", kids[2]], b'{"state":"done"}')
+        if s == "doing":
+            # a result attached to the task in progress: `list` prints an auxiliary `→ file://…` line under its row (not an item row)
+            os.makedirs(os.path.join(st.root, "out"), exist_ok=True)
+            with open(os.path.join(st.root, "out", "report é.txt"), "w") as f:
+                f.write("evidence")
+            st.exec(["--json", "--agent", "ag", "set", kids[2]], json.dumps({"result_path": "out/report é.txt", "result_summary": "half way"}).encode())
     new("epic", {"title": "empty epic"})
     return st
 
